@@ -29,6 +29,8 @@ long param(const std::string& name, long dflt);
 z3::expr term(const mpz_class& z);                   // Int
 z3::expr rterm(const mpz_class& z);                  // Real (to_real)
 z3::expr rterm(const mpq_class& q);                  // Real num/den (den != 0 required)
+// The integer term printed as `text' by operator<< (a numeral, or the token "@S<n>" of a symbolic value).
+z3::expr token_term(const std::string& text);
 z3::expr fresh_int(const std::string& base);
 z3::expr fresh_real(const std::string& base);
 z3::expr fresh_bool(const std::string& base);
